@@ -3,6 +3,7 @@
 mod api;
 mod conc;
 mod gc;
+mod lazy;
 mod node;
 mod txn;
 
@@ -32,6 +33,7 @@ fn mode_dispatch(args: &[String]) -> Result<(), String> {
         Some("txn") => txn::run_stdin(),
         Some("api2") => api::run_stdin2(),
         Some("conc") => conc::run_stdin(),
+        Some("lazy") => lazy::run_stdin(),
         Some("gc-deep") => gc::deep(&args[2..]),
         Some("gcrace") => conc::gcrace(&args[2..]),
         _ => Err("usage: harness gc|gc-enum ...".into()),
